@@ -47,7 +47,19 @@ Definition gobs_eqb (a b : gobs) : bool :=
 Inductive gcase :=
   | GHist (ops : list gop) (observed : list gobs)
   | GFinal (vals : list Z) (returned : bool)
-  | GPoolShutdown (ncpu : nat) (opts : list popt) (gated ran_before : nat) (accepted ran_ cancelled : list nat) (pending_final : Z).
+  | GPoolShutdown (ncpu : nat) (opts : list popt) (gated ran_before : nat) (accepted ran_ cancelled : list nat) (pending_final : Z)
+  | GWatch (depth : nat) (sweeps : list (list Z)).
+
+(* GWatch (round 4, harness watch.go): sample of sweeps that concurrent observers took bottom-up (pool counter first, then the
+   counter of every group above it up to the root) while submitters were running and every accepted task was parked (no counter
+   decreases).  By C16_group_wait_sound (GroupConcProofs.v) a value read from an unlocked counter is the value of the
+   linearised forest, in which a non-zero node has only non-zero ancestors: once a sweep has seen a non-zero counter, every
+   later (higher) read must be non-zero too.  The harness judges every read with its own stamps; this re-checks the sample. *)
+Fixpoint sweep_ok (seen : bool) (l : list Z) : bool :=
+  match l with
+  | [] => true
+  | v :: r => if (v =? 0)%Z then negb seen && sweep_ok seen r else sweep_ok true r
+  end.
 
 (* Start; close the gate; g Submits of the gated task 0; Shutdown; open the gate; ShutdownComplete.Wait *)
 Definition backlog_script (g : nat) : list Corr.dir :=
@@ -80,6 +92,7 @@ Definition gagree (k : gcase) : bool :=
       let pc := pool_cfg true ncpu opts in
       conserved_b (pc_cancel pc) a r x p &&
       (let (mr, mx) := model_split pc g in (length r =? rb + mr) && (length x =? mx))
+  | GWatch depth sweeps => forallb (fun s => (length s <=? depth + 2) && sweep_ok false s) sweeps
   end.
 
 Fixpoint gmismatches_from (i : nat) (cs : list gcase) : list nat :=
